@@ -7,6 +7,8 @@ CLAIMED = {
  'C20': dict(text='Solver verdict over ALL real A (n x n, n<=4 quick / 6 thorough), y, h for euler and rungekutta against the Taylor polynomial of exp(hA); over all polynomials of degree<=4 with symbolic coefficients for central_difference (error is exactly shift^2 f\'\'\'/6); captured rate/climbrate closures of ISMPath.step against the climbing-force definition. Bounded (dimension, degree) but unsampled inside the bound.',
              note='Real arithmetic, not IEEE-754. Relaxation dynamics (SciPy spline re-spacing, convergence to minima/saddle) are outside the claim.', ref='§5 C20'),
 }
+CLAIMED['C09'] = dict(text='Solver verdict with the five base units as arbitrary positive reals: every unit-table entry is a symbolic monomial; parse() agrees with an independent precedence-climbing evaluator on every generated expression (depth<=2 exhaustive, stride through depth 3; thorough depth 3), set/get round trips, conversion factors equal under two independent working-unit systems, chosen working units equal 1 after reset_units(**choice) for all consistent choices (2-3 names per category), LAMMPS mechanical table entries satisfy the dimensional scaling law.',
+             note='Base-unit contract of numericalunits.reset_units stubbed as arbitrary positive reals; real arithmetic with relative tolerance 1e-9 for the clause "to rounding"; exponent table of the oracle measured from concrete numericalunits runs.', ref='§5 C09')
 NA = {}
 props = [json.loads(l) for l in open(os.path.join(V, 'properties.jsonl'))]
 checks = []; na = []
